@@ -79,6 +79,19 @@ CLAIMED = {
             "Trusts the pyvc encoder, z3 (Seq + LIA/NIA); A-concrete-inputs (abstract-array branches dropped); float scalar as "
             "real; mixed int/pair input sequences of symbolic length, num_copies and __hash__ are not covered.",
             "DESIGN.md 4 C44", "E1"),
+    "C05": ("proof",
+            "contracts on the cache-key functions: (a) every angle reduction `% P` in _process_data/_canonicalize_dynamic "
+            "(read from the AST each run) requires the real gate matrix to be exactly P-periodic in every parameter "
+            "(symbolic, Laurent normal form); (c) QuantumScript.hash's fingerprint construction (read from the AST) is "
+            "injective in (ops, measurements, trainable, shots) over sequences of symbolic length (z3 Seq, 3-step argument); "
+            "(b) rounding quantum recorded as known finding F16",
+            "Soundness of the cache key, the part of the property a per-function contract can carry: after the two fix: "
+            "commits (F1: SU(2) rotations hashed modulo 4*pi; F11: fingerprint components kept apart) all period obligations "
+            "and the injectivity obligation are discharged; the 10-decimal rounding of parameters (F16) is reported as an open "
+            "known finding with a replayed cached/uncached difference.",
+            "Assumes python's hash collision-free on fingerprints; qp.execute plumbing and _cache_transform's hit/miss logic "
+            "are not under contract; numpy interface.",
+            "DESIGN.md 4 C05", "E2+E1"),
     "C61": ("proof",
             "contract on step/step_and_cost/apply_grad/compute_grad of the six gradient optimizers: outputs == documented "
             "update rule; real methods executed on sympy-backed symbolic scalars from an arbitrary accumulator state with an "
